@@ -192,6 +192,73 @@ fn c02_wal_torn_tail_every_offset() {
   kani::cover!(a != b, "distinct ids");
 }
 
+/// Writes `D(a) D(b) C` through the real Wal API.
+fn build_ddc(a: u8, b: u8) -> Arc<MemStorage> {
+  let st = Arc::new(MemStorage::new(Vec::new()));
+  let p = PathBuf::new();
+  let mut wal = ok(Wal::open(st.clone(), &p)).unwrap();
+  assert!(ok(wal.append_delete_doc_id(&id1(a))).is_some());
+  assert!(ok(wal.append_delete_doc_id(&id1(b))).is_some());
+  assert!(ok(wal.append_commit()).is_some());
+  assert!(ok(wal.sync()).is_some());
+  std::mem::forget(wal);
+  st
+}
+
+fn torn_case_ddc(full: &[u8], t: usize, a: u8, b: u8) {
+  let img = MemStorage::new(full[..t].to_vec());
+  let entries = replay_of(&img);
+  let want = if t >= 2 * D + C {
+    3
+  } else if t >= 2 * D {
+    2
+  } else if t >= D {
+    1
+  } else {
+    0
+  };
+  assert!(entries.len() == want, "C02/C17: torn log does not recover exactly the intact prefix (D D C)");
+  if want >= 1 {
+    assert!(is_delete(&entries[0], a), "C02: wrong first record after tear (D D C)");
+  }
+  if want >= 2 {
+    assert!(is_delete(&entries[1], b), "C02: wrong second record after tear (D D C)");
+  }
+  if want >= 3 {
+    assert!(is_commit(&entries[2]), "C02: wrong third record after tear (D D C)");
+  }
+  let (first, n) = pending_from(&entries);
+  // both deletes stay pending until the commit marker itself is intact; then nothing is pending
+  let want_pending = if want == 3 { 0 } else { want };
+  assert!(n == want_pending && (want == 3 || first == 0), "C02: a commit attempt whose marker was torn must leave its operations pending, an intact marker none");
+  std::mem::forget(entries);
+  std::mem::forget(img);
+}
+
+//@ props: C02, C17
+//@ tier: thorough
+//@ timeout: 2700
+//@ funcs: index::wal::Wal::replay, util::varint::read_u64, crc32fast (portable path)
+//@ symbolic: ids a, b of the log `delete(a), delete(b), commit`; the crash point = EVERY byte offset 0..20 at which the unsynced tail is dropped
+//@ bounds: 3 records / 20 bytes, every truncation length
+//@ oracle: exactly the records wholly before the tear are recovered; while the commit marker is torn both operations are still pending (the commit did not happen), once it is intact nothing is pending (no re-application)
+//@ assumes: as c02_wal_roundtrip_dcd
+#[kani::proof]
+#[kani::unwind(8)]
+#[kani::stub(std::backtrace::Backtrace::capture, stub_backtrace)]
+#[kani::stub(alloc::fmt::format, stub_format)]
+#[kani::stub(crc32fast::Hasher::internal_new_specialized, stub_crc_specialized)]
+#[kani::stub(serde_json::from_slice, stub_from_slice)]
+#[kani::stub(core::str::from_utf8, stub_from_utf8)]
+fn c02_wal_torn_tail_ddc_every_offset() {
+  let (a, b) = (any_ascii(), any_ascii());
+  let st = build_ddc(a, b);
+  let full = st.bytes().clone();
+  assert!(full.len() == 2 * D + C, "record framing changed: harness constants are stale");
+  each_offset!(torn_case_ddc, &full, a, b; 0, 1, 2, 3, 4, 5, 6, 7, 8, 9, 10, 11, 12, 13, 14, 15, 16, 17, 18, 19, 20);
+  kani::cover!(a == b, "the same id deleted twice");
+}
+
 fn append_after_tear_case(full: &[u8], t: usize, c: u8) {
   // image after the first crash: delete("a") intact, then the first t bytes of a torn record
   let img = Arc::new(MemStorage::new(full[..D + t].to_vec()));
